@@ -250,7 +250,7 @@ PROPS = {
                         'the gpsd back end inherits the no-op'],
     },
     'C12': {
-        'source_transfer': ['TransferServer', 'TransferTty'],
+        'source_transfer': ['TransferServer', 'TransferTty', 'TransferGpsdTx'],
         'source_tie': ['Server', 'UbxParser', 'Tty', 'GpsdTx'],
         'jobs': [{'component': 'srv', 'profile': 'mixed', 'quick': 2400, 'thorough': 4000, 'project': 'sent+same'},
                  {'component': 'frame', 'profile': 'threads', 'quick': 1, 'thorough': 1},
@@ -283,7 +283,7 @@ PROPS = {
                  {'component': 'gpsdtx', 'profile': 'gpsdtx', 'quick': 120, 'thorough': 800}],
         'trusted': ['bytes.decode / str.splitlines / json.loads are the real ones; the model is handed their per-line outcome'],
         'assumptions': ['partial: gpsd itself; termination of _enable() is not claimed'],
-        'source_transfer': ['TransferGpsd'],
+        'source_transfer': ['TransferGpsd', 'TransferGpsdTx'],
         'source_tie': ['Gpsd', 'GpsdTx'],
     },
 }
